@@ -68,14 +68,14 @@ theorem C09_announce (w : Nat) (tx : Bytes) (r : AnnResp) (v6a v6p : Bool) (htx 
     (hp : ∀ p ∈ (if v6p then r.v6peers else r.v4peers), p.ip.length + 2 = w) :
     decodeAnnounce w (writeAnnounce tx r v6a v6p) =
       some { action := if v6a then 4 else 1, tx := tx,
-             interval := ((r.interval / 1000000000) % 2^32).toNat, leechers := r.incomplete % 2^32, seeders := r.complete % 2^32,
+             interval := ((Int.tdiv r.interval 1000000000) % 2^32).toNat, leechers := r.incomplete % 2^32, seeders := r.complete % 2^32,
              peers := (if v6p then r.v6peers else r.v4peers).map fun p => (p.ip, p.port % 2^16) } := by
   have hpb : ∀ p ∈ (if v6p then r.v6peers else r.v4peers), (peerBytes p).length = w := by
     intro p hpm; have := hp p hpm; simp [peerBytes]; omega
   have hlen := flatMap_length_const w peerBytes _ hpb
-  have hiv : ((r.interval / 1000000000) % 2^32).toNat < 2^32 := by
-    have : (r.interval / 1000000000) % 2^32 < 2^32 := Int.emod_lt_of_pos _ (by decide)
-    have : 0 ≤ (r.interval / 1000000000) % 2^32 := Int.emod_nonneg _ (by decide)
+  have hiv : ((Int.tdiv r.interval 1000000000) % 2^32).toNat < 2^32 := by
+    have : (Int.tdiv r.interval 1000000000) % 2^32 < 2^32 := Int.emod_lt_of_pos _ (by decide)
+    have : 0 ≤ (Int.tdiv r.interval 1000000000) % 2^32 := Int.emod_nonneg _ (by decide)
     omega
   unfold decodeAnnounce writeAnnounce header
   simp only [List.append_assoc, List.length_append, be32_length, htx, hlen]
@@ -97,7 +97,7 @@ theorem C09_announce (w : Nat) (tx : Bytes) (r : AnnResp) (v6a v6p : Bool) (htx 
   rw [hq]
   simp only [slice_append_ge, slice_append_prefix, be32_length, htx, Nat.le_refl, Nat.sub_self, Nat.reduceSub, Nat.reduceLeDiff,
     Nat.zero_le, toNatBE_be32', Nat.mod_mod]
-  have hdrop : List.drop 20 (be32 (if v6a = true then 4 else 1) ++ (tx ++ (be32 ((r.interval / 1000000000) % 2^32).toNat ++
+  have hdrop : List.drop 20 (be32 (if v6a = true then 4 else 1) ++ (tx ++ (be32 ((Int.tdiv r.interval 1000000000) % 2^32).toNat ++
       (be32 (r.incomplete % 2^32) ++ (be32 (r.complete % 2^32) ++ List.flatMap peerBytes (if v6p then r.v6peers else r.v4peers))))))
       = List.flatMap peerBytes (if v6p then r.v6peers else r.v4peers) := by
     rw [← List.append_assoc, ← List.append_assoc, ← List.append_assoc, ← List.append_assoc]
